@@ -39,6 +39,7 @@ def op_alphabet(keys, nmax):
         ops.append(['append', k])
         ops.append(['appendv', k, False])
         ops.append(['setnone', k])
+        ops.append(['add_self', k, False])
         ops.append(['add', k, {'value': 'BAD', 'index': 0}])
         ops.append(['add', k, {'value': 'BAD'}])
     ops.append(['add', keys[0], {'index': 0, 'pos_key': keys[-1]}])
@@ -49,6 +50,7 @@ def op_alphabet(keys, nmax):
     ops.append(['sortkr'])
     ops.append(['reverse'])
     ops.append(['extend', [keys[-1], keys[0]], 'dict', True])
+    ops.append(['extend', ['e', 'e', keys[0]], 'list', True])
     return ops
 
 
@@ -75,6 +77,10 @@ def apply_model(lst, op, step):
     kind = op[0]
     if kind == 'set':
         return apply_model(lst, ['add', op[1], {}], step)
+    if kind == 'add_self':
+        # positioning a key relative to itself is not defined by the documentation: either it is rejected (and then
+        # nothing may change) or the key set stays what it was and the key takes the new value
+        return ('either', None)
     if kind == 'setnone':       # a key whose value is None is still a key
         return apply_model(lst, ['add', op[1], {'value': None}], step)
     if kind == 'add':
@@ -166,6 +172,8 @@ def apply_real(o, op, step):
         elif kind == 'setnone':
             o[op[1]] = None
             r = None
+        elif kind == 'add_self':
+            r = o.add_item(op[1], val, pos_key=op[1], after=op[2])
         elif kind == 'add':
             kw = dict(op[2])
             v = kw.pop('value', val)
@@ -234,6 +242,17 @@ def check_history(case, excl=frozenset()):
             got = apply_real(o, op, step)
         except Exception as e:  # noqa
             raise Violation('step-raises', dict(case, step=step), 'op %r raised %s' % (op, describe_exc(e)), (op[0],))
+        if want[0] == 'either':
+            now = observe(o)
+            if got[0] == 'raises':
+                if now != before:
+                    raise Violation('rejected-op-changed-state', dict(case, step=step),
+                                    'op %r was rejected but items went %r -> %r' % (op, before, now), (op[0],))
+            elif sorted(k for k, _ in now) != sorted(set([k for k, _ in before] + [op[1]])):
+                raise Violation('state', dict(case, step=step), 'op %r changed the key set: %r -> %r' % (op, before, now), (op[0],))
+            lst[:] = [list(x) for x in now]
+            nontrivial = True
+            continue
         if want != got:
             raise Violation('step-outcome', dict(case, step=step), 'op %r: model %r, real %r' % (op, want, got), (op[0],))
         if want[0] == 'raises':
@@ -276,8 +295,10 @@ def check_dump_order(case):
     for k, v in lst:
         g.metadata[k] = v
     for step, op in enumerate(case['ops']):
-        apply_model(lst, op, step)
+        r = apply_model(lst, op, step)
         apply_real(g.metadata, op, step)
+        if r[0] == 'either':        # (outcome not defined by the documentation: follow the object)
+            lst[:] = [list(x) for x in observe(g.metadata)]
     z = hszinc.dump(g)
     head = z.split('\n')[0]
     want = 'ver:"2.0"' + ''.join(' %s' % k if v == 'MARKER' else (' %s:N' % k if v is None else ' %s:"%s"' % (k, v)) for k, v in lst)
@@ -362,7 +383,8 @@ def run(part, args, env):
             st.tuples(st.lists(key, min_size=1, max_size=3, unique=True), st.sampled_from(['list', 'dict', 'sd'])).map(
                 lambda t: ['extend', t[0], t[1], True]),
             st.tuples(key, st.sampled_from(['list', 'dict', 'sd'])).map(lambda t: ['extend', [t[0]], t[1], False]),
-            key.map(lambda k: ['setdefault', k]), st.just(['clear']))
+            key.map(lambda k: ['setdefault', k]), st.just(['clear']), st.tuples(key, st.booleans()).map(lambda t: ['add_self', t[0], t[1]]),
+            st.lists(key, min_size=2, max_size=4).map(lambda ks: ['extend', ks, 'list', True]))
         hist = st.fixed_dictionaries({
             'cls': st.sampled_from(['mo', 'mv']), 'initial': st.sampled_from(INITIALS + [['', 'a'], ['b', '', 'c']]), 'ops': st.lists(op, min_size=1, max_size=40)})
 
